@@ -24,7 +24,7 @@ from dimod import (BinaryQuadraticModel as BQM, QuadraticModel as QM, Constraine
 from harness.common import lab, rat, run_driver
 from harness.props.energy_common import (LABELS, Recipe, q8, F, fl, poly_value, rats, labs, rows_tok, introws_tok,
                                          adj_tok, qmb_tokens, domain, perm_of, dict_lit, encodings, run_child,
-                                         exc_class, gen_bqm, gen_qm)
+                                         exc_class, gen_bqm, gen_qm, edit_history)
 
 
 class Batch:
@@ -325,6 +325,14 @@ def case_bqm(ctx, r, B):
     R = Recipe()
     dtype = r.choice(['np.float64', 'np.float32', 'object'])
     labels, vt = gen_bqm(r, R, dtype=dtype)
+    if labels and r.random() < .3:
+        # energies of a model an edit history left behind (relabelled, contracted, copied, converted …), not only of a fresh one
+        if edit_history(ctx, r, R, dtype, nops=r.randint(1, 3), tag='history op before energies') is None:
+            return
+        labels, vt = list(R['m'].variables), R['m'].vartype.name
+        if any(abs(F(b)) > 64 for _, b in R['m'].iter_linear()) or any(abs(F(b)) > 64 for _, _, b in R['m'].iter_quadratic()):
+            return
+        ctx.tick('energies after an edit history')
     m = R['m']
     is_py = dtype == 'object'
     for target in ['m', 'm.spin', 'm.binary']:
